@@ -254,7 +254,10 @@ rule("AnonRoutine", ["'procedure' OptParams @A 'begin' @{ StmtList @C 'end' @} @
 
 # ------------------------------------------------------------------ lexical pools
 rule("Ident", ["'A'", "'B'", "'I'", "'Foo'", "'Bar'", "'Baz'", "'Value'", "'Index'", "'Count'", "'Items'", "'FList'", "'AVeryLongIdentifierName'",
-               "'AnotherQuiteLongName'", "'Größe'", "'X1'", "'_Tmp'", "'&begin'", "'Name'", "'Message'", "'ReadOnly'", "'Platform'", "'Stored'", "'Local'"], ["'A'", "'Foo'"], ident=True)
+               "'AnotherQuiteLongName'", "'Größe'", "'X1'", "'_Tmp'", "'&begin'", "'Name'", "'Message'", "'ReadOnly'", "'Platform'", "'Stored'", "'Local'",
+               # long names: 33, 34, 39 and 70 characters (the widths of the scanner's vector steps are 32 and 64)
+               "'X23456789012345678901234567890123'", "'X234567890123456789012345678901234'", "'TotalNumberOfRegisteredCustomerAccounts'",
+               "'AnIdentifierThatIsLongerThanSixtyFourCharactersSoThatItSpansTwoChunks1'"], ["'A'", "'Foo'"], ident=True)
 # (`Default` is not in the pool: a member named Default directly after a property declaration IS the `default;` directive)
 rule("TypeIdent", ["'TFoo'", "'TBar'", "'TList'", "'TDictionary'", "'IFoo'", "'TMyVeryLongClassName'"], ["'TFoo'"], ident=True)
 rule("TypeName", ["'Integer'", "'Boolean'", "'TFoo'", "'TObject'", "'Byte'", "'Double'", "'PChar'", "'System' '.' 'TObject'", "'Platform'", "'Deprecated'", "'Experimental'"], ["'Integer'"], ident=True)
